@@ -46,12 +46,30 @@ func File(b int, header bool) *pbfgen.File {
 // FileVaried is File with the first two blocks stating non-default block
 // parameters (granularity, offsets, date granularity) and the later ones
 // omitting them: a decoder that handled one of the first blocks must not carry
-// its parameters into a later block.
+// its parameters into a later block. All objects share one uid under different
+// user names.
 func FileVaried(b int, header bool) *pbfgen.File {
 	f := File(b, header)
 	for i := 0; i < 2 && i < len(f.Blocks); i++ {
 		f.Blocks[i].Granularity, f.Blocks[i].LatOffset, f.Blocks[i].LonOffset, f.Blocks[i].DateGranularity =
 			pbfgen.I32(1000), pbfgen.I64(123456000), pbfgen.I64(-98765000), pbfgen.I32(2000)
+	}
+	// one uid under a different display name in every object (a user who renamed):
+	// what one block says about a uid says nothing about the next block
+	for i := range f.Blocks {
+		for _, g := range f.Blocks[i].Groups {
+			if g.Dense != nil {
+				for k := range g.Dense.Nodes {
+					g.Dense.Nodes[k].UID = 777
+				}
+			}
+			for k := range g.Ways {
+				g.Ways[k].Info.UID = pbfgen.I32(777)
+			}
+			for k := range g.Relations {
+				g.Relations[k].Info.UID = pbfgen.I32(777)
+			}
+		}
 	}
 	return f
 }
